@@ -227,16 +227,31 @@ theorem histchunk_roundtrip_float (c : Chunk) (s0 : Stored) (ss : List Stored) (
 
 /-- **From appended histograms to bytes and back** (`append_roundtrip` ∘ `histchunk_roundtrip`).  Every chunk of a
     head series built by the transcribed appender from valid integer histograms far inside the int64 range
-    (`SmallH`: |t| < 2^61, counts < 2^61, absolute bucket counts in [0, 2^60)) — whatever was cut, recoded forward
-    or backward — is decoded from its encoded bytes exactly, provided the span lists of its final (merged) layout
-    fit the layout encoding (`SpansEnc`: offsets in int64, lengths and number of spans below 2^64; `SmallH` also
-    asks for an exponential schema).  Reading the decoded chunks therefore returns the appended histograms
+    (`SmallH`: |t| < 2^61, counts < 2^61, absolute bucket counts in [0, 2^60), exponential schema, span lists that
+    fit the layout encoding over bucket indices inside ±2^40) — whatever was cut, recoded forward or backward — is
+    decoded from its encoded bytes exactly.  All hypotheses are about the appended histograms; that the merged
+    layouts built by `adjustForInserts`/`expandSpansBothWays` stay encodable is part of the proof
+    (`runSeries_layouts`).  Reading the decoded chunks therefore returns the appended histograms
     (`append_roundtrip`). -/
 theorem bytes_roundtrip (ops : List ((Int × Hist) × Bool)) (s : Series) (hwf : ∀ p ∈ ops, WFs p.1.2)
     (hsm : ∀ p ∈ ops, Prom.HistChunk.SmallH p.1) (hrun : runSeries ops Series.empty = .ok s) :
-    ∀ c ∈ s.chunks, Prom.HistChunk.SpansEnc c →
-      Prom.HistChunk.decodeChunk (Prom.HistChunk.encodeChunk c) = some c :=
-  Prom.HistChunk.series_bytes_roundtrip ops s hwf hsm hrun
+    ∀ c ∈ s.chunks, Prom.HistChunk.decodeChunk (Prom.HistChunk.encodeChunk c) = some c :=
+  Prom.HistChunk.series_bytes_roundtrip' ops s hwf hsm hrun
+
+/-- `SmallH` is met by an ordinary histogram: schema 3, buckets {-2,-1,1} with counts 2,5,6 -/
+example : Prom.HistChunk.SmallH
+    (1000, Hist.mk false .unknown 3 0 13 0 0x402a000000000000 [⟨-2, 2⟩, ⟨1, 1⟩] [] [2, 3, 1] [] []) := by
+  have lb : Prom.HistChunk.LayoutBound [⟨-2, 2⟩, ⟨1, 1⟩] := by
+    refine ⟨⟨?_, by decide⟩, by decide, by decide⟩
+    intro s hs
+    simp only [List.mem_cons, List.not_mem_nil, or_false] at hs
+    rcases hs with rfl | rfl <;> exact ⟨by simp only [Prom.Bits.I64, Prom.Bits.two63]; omega, by decide⟩
+  refine ⟨by simp only [Prom.HistChunk.Sm]; omega, rfl, by decide, by decide, by decide, by decide,
+    ⟨by simp only [Prom.Bits.I64, Prom.Bits.two63]; omega, by decide⟩, ⟨lb, Prom.HistChunk.LayoutBound.nil⟩, ?_, ?_⟩
+  · intro v hv
+    simp only [prefixSums, prefixFrom, List.mem_cons, List.not_mem_nil, or_false] at hv
+    rcases hv with rfl | rfl | rfl <;> omega
+  · intro v hv; simp [prefixSums, prefixFrom] at hv
 
 /-- the hypotheses are met by a concrete two-sample chunk -/
 example : Prom.HistChunk.ChunkOk
